@@ -253,7 +253,7 @@ type writerCtx struct {
 	q  cutter.OperationQueue
 }
 
-func (c *writerCtx) Protocol() protocol.Client              { return c.pc }
+func (c *writerCtx) Protocol() protocol.Client             { return c.pc }
 func (c *writerCtx) Anchor() batch.AnchorWriter            { return c.a }
 func (c *writerCtx) OperationQueue() cutter.OperationQueue { return c.q }
 
@@ -278,8 +278,8 @@ func checkWriterLog(evs []wev, ops map[string]opInfo, accepted map[string]bool, 
 	}
 	anchoredCnt := map[string]int{}
 	expiredCnt := map[string]int{}
-	var model []string       // sequential queue replay
-	var inflight []string    // removed, not yet acked/nacked
+	var model []string    // sequential queue replay
+	var inflight []string // removed, not yet acked/nacked
 	var curInc, curAdd, curExp []string
 	var curBatch []string
 	anchorOK := false
